@@ -212,7 +212,7 @@ def run(ck):
     ck.run_rule("C07.R9b", "printing a diagnostic never raises: both handlers on every span position of small files", 1, c07.rule_R9b)
     ck.run_rule("G13n", "no primitive parser matches the empty string (a parser that matched has consumed input)", 40, loops.rule_G13n)
     from ..rules import route
-    ck.run_rule("DIR.route", "a statement that is neither an instruction, a directive nor a constant is an error, never dropped silently; a refused RADIX-50 character still leaves a well-formed word", 5, route.rule_route, ("fallback", "rad50"))
+    ck.run_rule("DIR.route", "a statement that is neither an instruction, a directive nor a constant is an error, never dropped silently; a refused RADIX-50 character still leaves a well-formed word", 5, route.rule_route, ("fallback", "rad50", "data"))
     from . import c16
     ck.run_rule("C16.R3", "'.once' cuts inclusion cycles: the counter is advanced before the body is compiled", 3, c16.rule_R3)
     from ..rules import deliver
@@ -233,6 +233,8 @@ def run(ck):
     ck.run_rule("G5.bal", "cycle detection bookkeeping (Awaiting) stays balanced when a cycle is found: DeferredCycle, not an AssertionError, reaches its handler", 18, _c18.rule_balance)
     from ..rules import escape as _esc
     ck.run_rule("G16", "no blanket handler inside the package: failures are reported or travel to the last-resort handler, never swallowed", 8, _esc.rule_G16)
+    from . import c05 as _c05
+    ck.run_rule("C05.R2", "division by zero and negative shift counts are reported and still leave a number (the statement around them is assembled on)", 28, _c05.rule_R2)
     ck.run_rule("C03.R1u", "a name nobody defines: one error, then an integer value and no definition site (no None reaches arithmetic)", 1, c11.rule_undefined_value)
     ck.run_rule("C11.R5", "'.extern all' leaves a usable location (P7)", 4, c11.rule_R5)
     ck.run_rule("C03.R6", "operators applied to not-yet-known operands defer and later evaluate without raising", 9, c03.rule_R6)
